@@ -23,6 +23,10 @@ PARTIAL = ['SF.C05.hloc_exact_partial: proved for per-depth selectors label / al
            'repaired leaf bound itself is proved (leaf_open_slice_bounded). Slices and the innermost Boolean mask are covered by the '
            'model-vs-code comparison and the list-of-tuples oracle']
 CORR_ONLY = [
+    'aliasing of tree nodes (IndexHierarchyGO.from_product builds ONE ArrayGO of targets shared by all sibling nodes of a depth; '
+    'IndexHierarchy.__init__ un-shares it by copying the levels): the Lean Level is a value tree without object identity, so sharing is '
+    'covered by the oracle only - histories start from every construction / conversion route at depth 3-4 and every view, the static '
+    'source and copies taken before the growth are compared with the list-of-tuples reference after every step',
     'label-slice and Boolean selectors of HLoc; Boolean masks at outer depths (outside the claim, compared model vs code only)',
     'IndexHierarchy.loc / iloc / Frame.loc[HLoc] / Series[HLoc] (rows extracted by TypeBlocks: C03/C04) against the list-of-tuples reference',
     '_extract_iloc rebuild through _from_type_blocks (builder proved in C02; the rebuilt index is checked by the bijection oracle)',
@@ -49,7 +53,7 @@ def nontrivial(c):
 
 
 # ----------------------------------------------------------------------------- selectors
-def rand_sel(rng, labs_at_depth, n, innermost, absent):
+def rand_sel(rng, labs_at_depth, n, innermost, absent, allow_neg=True):
     """one per-depth selector over the labels seen at that depth (tokens)"""
     r = rng.random()
     labs = list(labs_at_depth)
@@ -65,6 +69,8 @@ def rand_sel(rng, labs_at_depth, n, innermost, absent):
         return ['list', l]
     if r < 0.93 or not innermost:
         a, b = rng.choice(labs + [None]), rng.choice(labs + [None])
+        if allow_neg and rng.random() < 0.2:
+            return ['sl', a, b, -1]       # descending label slice: start and stop label included, reverse order
         return ['sl', a, b]
     return ['mask', [rng.random() < 0.5 for _ in range(n)]]
 
@@ -88,7 +94,8 @@ def rand_sels(rng, toks, kinds):
     sels = []
     for d in range(ln):
         a = ABSENT.get(kinds[d])
-        sels.append(rand_sel(rng, labels_at_depth(toks, d), n, d == depth - 1, None if a is None else tok(a)))
+        # (no descending slices on datetime levels: the datetime branch of map_slice_args still excludes the stop, finding F48 of C02)
+        sels.append(rand_sel(rng, labels_at_depth(toks, d), n, d == depth - 1, None if a is None else tok(a), allow_neg=kinds[d] != 'D'))
     return sels
 
 
@@ -106,7 +113,8 @@ def sel_wire(sel, intern):
     if k == 'sl':
         a = 'N' if sel[1] is None else intern.lab(untok(sel[1]))
         b = 'N' if sel[2] is None else intern.lab(untok(sel[2]))
-        return f'(sl {a} {b} N)'
+        st = 'N' if len(sel) < 4 or sel[3] is None else str(sel[3])
+        return f'(sl {a} {b} {st})'
     if k == 'mask':
         return '(mask ' + ' '.join('1' if b else '0' for b in sel[1]) + ')'
     raise ValueError(sel)
@@ -121,7 +129,8 @@ def sel_py(sel):
     if k == 'list':
         return [untok(t) for t in sel[1]]
     if k == 'sl':
-        return slice(None if sel[1] is None else untok(sel[1]), None if sel[2] is None else untok(sel[2]))
+        return slice(None if sel[1] is None else untok(sel[1]), None if sel[2] is None else untok(sel[2]),
+                     sel[3] if len(sel) > 3 else None)
     if k == 'mask':
         return np.array(sel[1], dtype=bool)
     raise ValueError(sel)
@@ -149,7 +158,8 @@ def ref_hloc(hts, sels):
         if k == 'list':
             return ('list', [H(untok(t)) for t in s[1]])
         if k == 'sl':
-            return ('sl', None if s[1] is None else H(untok(s[1])), None if s[2] is None else H(untok(s[2])))
+            return ('sl', None if s[1] is None else H(untok(s[1])), None if s[2] is None else H(untok(s[2])),
+                    s[3] if len(s) > 3 else None)
         return tuple(s)
     hs = [hsel(s) for s in sels]
 
@@ -175,9 +185,14 @@ def ref_hloc(hts, sels):
             a, b = sel[1], sel[2]
             if (a is not None and a not in groups) or (b is not None and b not in groups):
                 raise RefErr()
-            i = 0 if a is None else labs.index(a)
-            j = len(labs) - 1 if b is None else labs.index(b)
-            chosen = labs[i:j + 1]
+            if sel[3] is not None and sel[3] < 0:
+                i = len(labs) - 1 if a is None else labs.index(a)
+                j = 0 if b is None else labs.index(b)
+                chosen = labs[j:i + 1][::-1]
+            else:
+                i = 0 if a is None else labs.index(a)
+                j = len(labs) - 1 if b is None else labs.index(b)
+                chosen = labs[i:j + 1]
         else:
             raise ValueError(sel)
         if d == depth - 1:
@@ -271,6 +286,52 @@ def gen_hist(rng):
     return {'k': 'hist', 'toks': toks, 'kinds': kinds, 'ops': ops}
 
 
+def product_tuples(rng, depth, kinds, max_leaves=18):
+    while True:
+        levels = [rng.sample(ic.GROW_POOLS[k][:4], rng.randint(1, 3)) for k in kinds]
+        n = 1
+        for l in levels:
+            n *= len(l)
+        if n <= max_leaves:
+            return [tuple(t) for t in itertools.product(*levels)]
+
+
+def gen_hist_routes(rng, depth=None, route=None):
+    """grow-only histories that START from every construction / conversion route at depth 3 and 4 (from_product shares
+    one ArrayGO of targets between sibling nodes until IndexHierarchy.__init__ copies the levels), with appends whose
+    first new label sits at every depth; every view is compared with the reference after every step"""
+    depth = depth or rng.choice([3, 3, 4])
+    kinds = [rng.choice('sif') for _ in range(depth)]
+    route = route or rng.choice(ic.GO_START_ROUTES)
+    if route in ('from_product', 'static_product_to_go') or (route in ('copy', 'go_of_go') and rng.random() < 0.6) or rng.random() < 0.25:
+        tups = product_tuples(rng, depth, kinds)
+    else:
+        toks, kinds = ic.rand_tree_tuples(rng, depth, kinds=kinds, max_fan=3, max_leaves=rng.choice([2, 5, 9]))
+        tups = [untok(t) for t in toks]
+    ops = ic.rand_grow_history(rng, tups, kinds, rng.randint(2, 6))
+    return {'k': 'hist', 'toks': [tok(t) for t in tups], 'kinds': kinds, 'start': route, 'ops': ops}
+
+
+def fixed_route_histories():
+    """deterministic: for every start route, depth 3 and 4, a 2x2x2(x2) product and ONE append whose first new label
+    sits at depth j (j = 0 .. depth-1) under the right-most path, and one under the first (closed) parent"""
+    for depth in (3, 4):
+        kinds = ['s', 's', 'i', 'i'][:depth] if depth == 3 else ['s', 's', 'i', 's']
+        levels = [['a', 'b'], ['x', 'y'], [1, 2], ['p', 'q']][:depth]
+        tups = [tuple(t) for t in itertools.product(*levels)]
+        new = ['c', 'z', 3, 'r']
+        for route in ic.GO_START_ROUTES:
+            for j in range(depth):
+                last = tups[-1]
+                key = tuple(last[:j]) + (new[j],) + tuple(levels[d][0] for d in range(j + 1, depth))
+                yield {'k': 'hist', 'toks': [tok(t) for t in tups], 'kinds': kinds, 'start': route, 'ops': [['ap', tok(key)], ['values']]}
+                if j:
+                    first = tups[0]
+                    key2 = tuple(first[:j]) + (new[j],) + tuple(levels[d][0] for d in range(j + 1, depth))
+                    yield {'k': 'hist', 'toks': [tok(t) for t in tups], 'kinds': kinds, 'start': route,
+                           'ops': [['ap', tok(key2)], ['ap', tok(key)], ['list']]}
+
+
 LEVEL_VALUES = [['a', 'b', 'c'], [1, 2, 3], ['x', 'y', 'z']]
 
 
@@ -298,6 +359,7 @@ def cases(ctx):
     yield {'k': 'hist', 'toks': [], 'kinds': ['s', 'i'], 'ops': [['len'], ['ap', tok(('a', 1))], ['list'], ['values'], ['ap', tok(('a', 2))], ['values'], ['vad', 1]]}
     yield {'k': 'hist', 'toks': [tok(('a', 1)), tok(('b', 1))], 'kinds': ['s', 'i'],
            'ops': [['values'], ['ap', tok(('b', 2))], ['len'], ['values'], ['vad', 0], ['ex', [tok(('c', 1)), tok(('c', 2))]], ['list'], ['values'], ['in']]}
+    yield from fixed_route_histories()
     yield {'k': 'hist', 'toks': [], 'kinds': ['s', 'i'], 'ops': [['ex', [tok(('a', 1)), tok(('b', 1))]], ['len']]}
     yield {'k': 'hist', 'toks': [tok(('a', 1)), tok(('b', 1))], 'kinds': ['s', 'i'], 'ops': [['values'], ['ap', tok(('a', 2))], ['list']]}
     if not quick:
@@ -320,6 +382,8 @@ def cases(ctx):
             yield gen_views(rng)
         if i % 2 == 1:
             yield gen_hist(rng)
+        if i % 4 == 0:
+            yield gen_hist_routes(rng)
 
 
 def search(ctx):
@@ -328,6 +392,7 @@ def search(ctx):
         yield gen_hloc(rng)
         yield gen_views(rng)
         yield gen_hist(rng)
+        yield gen_hist_routes(rng)
 
 
 # ----------------------------------------------------------------------------- real objects
@@ -364,7 +429,7 @@ def hist_model_line(c):
     intern = Interner()
     depth = len(c['kinds'])
     tups = [untok(t) for t in c['toks']]
-    ih = sf.IndexHierarchyGO.from_labels(tups) if tups else sf.IndexHierarchyGO.from_labels((), depth_reference=depth)
+    ih, _ = ic.build_go_start(tups, c.get('start', 'from_labels'), depth)
     tree0 = ic.level_wire(ih._levels, intern)
     ops = []
     for op in c['ops']:
@@ -616,8 +681,13 @@ def eval_hist(ctx, c, outs):
     fails = []
     depth = len(c['kinds'])
     tups = [untok(t) for t in c['toks']]
-    ih = sf.IndexHierarchyGO.from_labels(tups) if tups else sf.IndexHierarchyGO.from_labels((), depth_reference=depth)
+    start = c.get('start', 'from_labels')
+    ih, keep = ic.build_go_start(tups, start, depth)
+    ctx.count('hist_start_' + start)
+    ctx.count(f'hist_depth_{depth}')
     cur = [HT(t) for t in tups]
+    hts0 = list(cur)
+    curv = list(tups)
     raised = []
     mutated_after_read = False
     read_seen = False
@@ -636,7 +706,11 @@ def eval_hist(ctx, c, outs):
             ctx.count('hist_append_' + ('accepted' if r is None else 'rejected'))
             if r is None:
                 f11 = f11_shape(cur, hk)
+                if cur and len(key) == depth:
+                    first_new = next((j for j in range(depth) if not any(t[:j + 1] == hk[:j + 1] for t in cur)), depth)
+                    ctx.count(f'hist_append_first_new_label_at_depth_{first_new}')
                 cur.append(hk)
+                curv.append(tuple(key))
                 mutated_after_read = mutated_after_read or read_seen
                 if hk in cur[:-1] or len(key) != depth:
                     fails.append(Failure('oracle', f'append({key!r}) of a held / wrong-depth key was accepted', c, detail={'op': oi, 'f11': f11}))
@@ -660,6 +734,7 @@ def eval_hist(ctx, c, outs):
             ctx.count('hist_extend_' + ('accepted' if r is None else 'rejected'))
             if r is None:
                 cur += ho
+                curv += [tuple(t) for t in otups]
                 mutated_after_read = mutated_after_read or read_seen
                 if overlap:
                     fails.append(Failure('oracle', 'extend with an outer label already held was accepted', c, detail={'op': oi}))
@@ -671,7 +746,23 @@ def eval_hist(ctx, c, outs):
             raised.append(None)
         # after every call every view must describe the current tuples (cached arrays included)
         if k in ('ap', 'ex'):
-            order = ['len', 'list']
+            # after every growth step (accepted or refused) EVERY view is compared with the reference
+            order = ['list', 'len', 'values', 'vad', 'widths', 'in', 'loc']
+            for msg in ic.check_unchanged(keep, hts0, f'after op {oi} {op[0]}'):
+                fails.append(Failure('oracle', msg, c, detail={'op': oi}))
+            if cur:
+                sel_sets = [[['lab', tok(curv[0][0])]], [['lab', tok(curv[-1][0])]], [['all'], ['lab', tok(curv[-1][1])]],
+                            [['lab', tok(v)] for v in curv[-1]], [['lab', tok(v)] for v in curv[0]],
+                            [['list', [tok(curv[-1][0]), tok(curv[0][0])] if H(curv[-1][0]) != H(curv[0][0]) else [tok(curv[0][0])]]]]
+                for sels in sel_sets:
+                    ref = ref_hloc(cur, sels)
+                    try:
+                        got = ic.ikey_positions(ih.loc_to_iloc(hloc_key(sels)), len(cur))
+                        if ref[0] == 'ok' and ref[1] and got != ref[1]:
+                            fails.append(Failure('oracle', f'after op {oi}: HLoc{sels} selects {got}, expected {ref[1]} (tuples {cur})', c, detail={'op': oi}))
+                    except Exception as ex:
+                        if ref[0] == 'ok' and ref[1]:
+                            fails.append(Failure('oracle', f'after op {oi}: HLoc{sels} raised {type(ex).__name__}: {ex}', c, detail={'op': oi}))
         elif k == 'hloc':
             order = []
             if cur:
@@ -697,6 +788,8 @@ def eval_hist(ctx, c, outs):
     if not fails:
         # final sweep: all views, twice (before / after materialisation is arbitrary at this point)
         fails += observe_views(ih, cur, depth, ['values', 'list', 'vad', 'len', 'depth', 'in', 'loc', 'iloc', 'rev', 'widths'], 'final', c)
+        for msg in ic.check_unchanged(keep, hts0, 'final'):
+            fails.append(Failure('oracle', msg, c))
     if mutated_after_read:
         ctx.count('hist_mutation_after_read')
     if outs and not fails:
